@@ -12,6 +12,9 @@ def main():
     import vf.env  # noqa: F401  (clock first, then pjplan)
     from vf import core, registry
     sys.setrecursionlimit(1000)
+    import os
+    from vf import cover
+    covering = cover.start(os.path.dirname(vf.env.PJPLAN_FILE)) if not directed else False
     mod = importlib.import_module(registry.REG[prop][0])
     res = {'prop': prop, 'shard': shard}
     try:
@@ -32,6 +35,9 @@ def main():
             acc = core.Acc(prop)
             mod.run_shard(prop, tier, seed, shard, nshards, core.Budget(cases, seconds), acc)
             res.update(acc.result())
+        if covering:
+            cover.stop()
+            res['cover'] = cover.hits()
         res['env'] = vf.env.repo_info() if shard == 0 else None
         res['clock_calls'] = vf.env.Clock.calls
     except BaseException:
